@@ -156,9 +156,15 @@ def run(program, rep, tier, sleep_only=False):
         rot_before = False
         in_active = False
         it_next = it_move = 0
+        t_stores = 0
+        def _stale(e):
+            vs = [v for c_, v in (e.sym.stamp if e.sym is not None else ())
+                  if c_ == T]
+            return bool(vs) and min(vs) < t_stores
         for i, e in enumerate(tr):
             if e.kind == 'store' and e.target is not None \
                     and e.target.text == T:
+                t_stores += 1
                 aug = (e.extra or {}).get('aug')
                 if aug is not None:
                     advs += 1
@@ -196,6 +202,10 @@ def run(program, rep, tier, sleep_only=False):
                              'exactly one): waiters wake a frame late or '
                              'early')
                     wake_seen = True
+                    if _stale(e):
+                        flag('deadline', e.node, 'the wake comparison uses a '
+                             'copy of the timer taken before its latest '
+                             'update in this frame')
                     ok = False
                     if isinstance(n, ast.Compare) and len(n.ops) == 1:
                         l, r, op = norm(n.left), norm(n.comparators[0]), \
@@ -257,7 +267,16 @@ def run(program, rep, tier, sleep_only=False):
                             if T in parts and any(p.startswith(('next(', 'next·'))
                                                   for p in parts):
                                 ok = True
-                    if not ok:
+                    if ok and _stale(e):
+                        ok = None
+                        flag('deadline', e.node,
+                             'the deadline is computed from a copy of the '
+                             'timer taken BEFORE the timer was last written '
+                             'in this frame (e.g. before the reset to 0 when '
+                             'the last waiter woke): the new wait is measured '
+                             'on the old time base and the coroutine wakes '
+                             'late by that amount')
+                    if ok is False:
                         flag('deadline', e.node,
                              'the deadline pushed onto the heap is not '
                              '<yielded value> + self._timer: a wait that '
@@ -440,3 +459,4 @@ def run(program, rep, tier, sleep_only=False):
     # ---- queued exactly once (C09 typestate) ------------------------------------------
     c09.run_methods(program, rep, 'C08', only={'preserve'})
     c09.run_process(program, rep, 'C08')
+    c09.check_alias(program, rep, 'C08')
